@@ -2,7 +2,7 @@
 # usage: tools/seeded_all.sh — applies every seeded change in turn and runs the check(s) named first in its meta.json "ran" line;
 # prints DETECTED / MISSED per seeded change (a regression test of the machinery itself; /repo is restored after each)
 cd /verif
-for d in seeded/*/; do
+for d in seeded/C*/; do
   n=$(basename $d)
   props=$(python3 -c "import json,sys;print(' '.join(json.load(open('$d/meta.json'))['ran'].split()[2:]))")
   first=$(echo $props | cut -d' ' -f1)
